@@ -161,7 +161,7 @@ CHECKS += [
         "msize x client msize (24..2^32-1 incl. equal, +-1) x server dialect x version string is executed on the real server; every later "
         "reply frame (large Rstat, 16-qid Rwalk, long Rerror, reads up to the limit) and every announced size 0..2^32-1 is one line that TLC "
         "validates against Nego (NegoTrace), incl. a Tread held inside the implementation across a second Tversion that lowers the msize; "
-        "the client's Connect is run against a scripted peer and validated the same way.",
+        "the client's Connect is run against a scripted peer and validated the same way; the Unix file server's Rstat and directory entries for every kind of host object (FIFO, socket, symlinks, set-id files and directories) in both dialects at three msizes are validated as frames too (a plain-9P2000 record carrying a mode bit only 9P2000.u defines counts as not in the dialect).",
         "Trusted base: TLC, harness/wire (dialect of Rerror/Rstat is told by strict decoding in both dialects). Sizes >= 2^31 are clamped in "
         "the TLA+ trace.",
         "TLA+/TLC model checking + grid execution on the real server/client + TLC trace validation of every observed frame",
